@@ -1,4 +1,5 @@
 import MudProof.Properties.C13
+import MudProof.StepThm
 open Mud.C13
 #print axioms loopGo_acc
 #print axioms loopGo_append
@@ -6,3 +7,5 @@ open Mud.C13
 #print axioms restart_equiv
 #print axioms restart_simulate
 #print axioms restart_counter_witness
+#print axioms Mud.StepThm.shRun_append
+#print axioms Mud.StepThm.shEnd_last
